@@ -123,7 +123,7 @@ static void do_op(Cmd *c) {
         o("st=-"); if (is_op(c, "destroy_cb")) { o(" "); o_cb(); }
     } else if (is_op(c, "zit_new")) {
         int p = (int)kv_u64(c, "p", 1);
-        if (p < 0 || p >= NSLOT || p == k || !A[k] || !A[p]) { z1 = z2 = -1; o("st=- noobj"); }
+        if (p < 0 || p >= NSLOT || !A[k] || !A[p]) { z1 = z2 = -1; o("st=- noobj"); }
         else { cc_array_zip_iter_init(&zit, A[k], A[p]); z1 = k; z2 = p; o("st=-"); }
     } else if (!strncmp(c->op, "zit_", 4)) {
         if (z1 < 0) o("st=- noiter");
